@@ -2,7 +2,18 @@
 from common import mc, lts_replay, drive_tv
 
 
+def design(ctx):
+    # D: the code's cursor algorithm (pre-fetch + re-seek) over an abstract map of 5 keys satisfies the
+    #    'fresh' rule for every direction x bound-kind pair under all interleavings of Put/Delete/Next
+    pairs = [(d, lo, hi) for d in ("fwd", "rev") for lo in ("unb", "inc", "exc") for hi in ("unb", "inc", "exc")]
+    if ctx.quick():
+        pairs = [pairs[i] for i in (0, 4, 8, 10, 14, 17)]
+    for d, lo, hi in pairs:
+        mc(ctx, "tree", "TreeCursor", "cur_%s_%s_%s.cfg" % (d, lo, hi), "TreeCursor %s %s %s" % (d, lo, hi), coverage=False, workers=4)
+
+
 def run(ctx):
+    design(ctx)
     # R: P-layer graph with one iterator (6 bound pairs x 2 directions) under every interleaving of Put/Delete/Next
     for variant in ("int", "rev", "set"):
         lts_replay(ctx, "tree", "SortedMap", "lts_it.cfg", "tree4", variant=variant, depth=ctx.pick(4, 5), walks=ctx.pick(6000, 60000), wlen=40,
